@@ -157,7 +157,7 @@ impl StorageData for FileStorage {
             Self::read_impl(&self.file, new_len, &mut buffer)?;
             self.wal.insert(new_len, &buffer)?;
         } else {
-            self.wal.insert(new_len, &[])?;
+            self.wal.insert(current_len, &[])?;
         }
 
         #[cfg(agdb_verif)]
